@@ -61,6 +61,7 @@ INTERPS = []
 def make_interp(repo):
     it = Interp(repo, scenario={"fh.is_all_out_of_sample": True, "fh.is_all_in_sample": False},
                 hooks=hooks, no_inline=("_check_y", "check_fh", "check_time_index", "_repr"))
+    it.index_loops = True  # `for k in range(len(v)): ... v[k]` is read as the loop over the elements of v
     INTERPS.append(it)
     return it
 
